@@ -278,7 +278,7 @@ def check_cli(chk, MX, tmp):
 # ----------------------------------------------------------------------------- C. caller's dictionaries
 ANALYSES = [("solve_forces", {}), ("derivatives", {}), ("state_derivatives", {}), ("pitch_trim", {"set_trim_state": True}), ("pitch_trim_using_orientation", {}),
             ("aero_center", {}), ("MAC", {}), ("distributions", {}), ("get_aircraft_reference_geometry", {}), ("target_CL", {"CL": 0.3}),
-            ("export_stl", {"section_resolution": 6}), ("export_vtk", {"section_resolution": 6})]
+            ("export_stl", {"section_resolution": 6}), ("export_vtk", {"section_resolution": 6}), ("export_pylot_model", {})]
 
 
 def check_no_mutation(chk, MX, tmp):
@@ -307,10 +307,14 @@ def check_no_mutation(chk, MX, tmp):
                 chk.violation("mutation:construct", dict(rep, what="constructing the scene modified the caller's input: " + r))
                 continue
             seq = rng.sample(ANALYSES, rng.randint(3, 6))
+            if it % 2 == 1 and not any(m_ == "export_pylot_model" for m_, _ in seq):
+                seq.append(("export_pylot_model", {}))
             for m_, kw in seq:
                 kw = copy.deepcopy(kw)
-                if m_.startswith("export"):
+                if m_ in ("export_stl", "export_vtk"):
                     kw["filename"] = os.path.join(tmp, "m%d.%s" % (it, m_[-3:]))
+                elif m_ == "export_pylot_model":
+                    kw["filename"] = os.path.join(tmp, "pylot%d.json" % it)
                 kw0 = copy.deepcopy(kw)
                 try:
                     getattr(sc, m_)(**kw)
@@ -380,6 +384,45 @@ def section_local(seg, span, pts):
     R = rot_x(dih) @ rot_y(tw)
     loc = (np.asarray(pts) - np.asarray(qc).reshape(1, 3)) @ R          # R^T applied to each row
     return loc, c
+
+
+def check_scene_stl(chk, MX, tmp, n):
+    """several aircraft in one STL: each aircraft's surface is its own body-fixed surface placed at its position with its attitude"""
+    from stl import mesh
+    rng = chk.rng
+    for it in range(n):
+        sd, acs = gen_case(rng, None, two=True)
+        acs = [(nm, ac, dict(st, orientation=[round(rng.uniform(-40, 40), 1), round(rng.uniform(-20, 20), 1), round(rng.uniform(-170, 170), 1)]), cs)
+               for nm, ac, st, cs in acs]
+        R = rng.choice([5, 6, 8])
+        try:
+            sc = gen.build_scene(MX, sd, acs)
+            fn = os.path.join(tmp, "scene%d.stl" % it)
+            sc.export_stl(filename=fn, section_resolution=R)
+            whole = np.asarray(mesh.Mesh.from_file(fn).vectors, dtype=np.float64).reshape(-1, 3)
+            parts = []
+            for nm, ac, st, cs in acs:
+                one = gen.build_scene(MX, sd, [(nm, ac, st, cs)])
+                f1 = os.path.join(tmp, "one%d_%s.stl" % (it, nm))
+                one.export_stl(filename=f1, section_resolution=R)            # a single aircraft is exported in its body-fixed frame
+                body = np.asarray(mesh.Mesh.from_file(f1).vectors, dtype=np.float64).reshape(-1, 3)
+                a = sc._airplanes[nm]
+                q = np.array(a.q, dtype=float)
+                placed = np.array(a.p_bar, dtype=float)[None, :] + np.array([api.quat_inv_rot(q, v) for v in body])
+                parts.append(placed)
+        except Exception as e:
+            chk.count("scene-stl-error=" + type(e).__name__)
+            continue
+        chk.case(dict(kind="scene-stl", it=it, R=R), nontrivial=True)
+        exp = np.concatenate(parts)
+        rep = dict(kind="export", what="multi-aircraft STL", scene=sd, aircraft=acs, section_resolution=R)
+        if exp.shape != whole.shape:
+            chk.violation("stl:scene-facet-count", dict(rep, got=len(whole) // 3, expected=len(exp) // 3))
+            continue
+        dev = float(np.max(np.abs(exp - whole)))
+        if dev > 1e-4 * (1.0 + float(np.max(np.abs(exp)))):
+            chk.violation("stl:scene-placement", dict(rep, what="aircraft surfaces in the scene STL are not the body-fixed surfaces placed at position / attitude",
+                                                      max_vertex_distance=dev))
 
 
 def check_exports(chk, MX, tmp):
@@ -529,6 +572,7 @@ def run(chk):
         check_cli(chk, MX, tmp)
         check_no_mutation(chk, MX, tmp)
         check_exports(chk, MX, tmp)
+        check_scene_stl(chk, MX, tmp, chk.q(2, 12))
     finally:
         shutil.rmtree(tmp, ignore_errors=True)
     return chk.finish(rule="(A) every documented filename= method on generated scenes: file parsed and compared with the returned value and with a run without file; "
@@ -536,7 +580,7 @@ def run(chk):
                            "created = model's run_cli evaluated in Coq, contents = API results of the same call sequence on a fresh scene; (C) deep type-strict "
                            "before/after comparison of caller-owned dictionaries around construction, analyses and setters, sibling and later scenes from the "
                            "same dictionaries; (D) STL and VTK parsed: facet count = model, panel slots hold the two triangles of the panel quadrilateral, "
-                           "vertices on section planes at grid nodes (independent placement oracle), left/right mirror images for symmetric aircraft")
+                           "vertices on section planes at grid nodes (independent placement oracle), left/right mirror images for symmetric aircraft (controls deflected); several aircraft in one STL = body-fixed surfaces placed at position / attitude")
 
 
 def replay(chk, path):
